@@ -99,6 +99,16 @@ macro_rules! scalar_type {
                     ensure!(p == (a != b), "assertc_eq!({a:?},{b:?}) panicked={p}");
                     let p = catch(|| { assertc_ne!(a, b); }).is_err();
                     ensure!(p == (a == b), "assertc_ne!({a:?},{b:?}) panicked={p}");
+                    // argument expressions with effects: each is evaluated once, left first, and the value that is
+                    // compared is the value of that one evaluation (the left operand changes on a second evaluation)
+                    for flip in [false, true] {
+                        n.set(0);
+                        let p = catch(|| { assertc_eq!({ n.set(n.get() * 10 + 1); if n.get() > 9 && flip { b } else { a } }, { n.set(n.get() * 10 + 2); b }); }).is_err();
+                        ensure!(p == (a != b) && n.get() == 12, "assertc_eq!({a:?},{b:?}) [{tn}] with counting arguments: panicked={p}, evaluation trace {} (expected 12)", n.get());
+                        n.set(0);
+                        let p = catch(|| { assertc_ne!({ n.set(n.get() * 10 + 1); if n.get() > 9 && flip { b } else { a } }, { n.set(n.get() * 10 + 2); b }); }).is_err();
+                        ensure!(p == (a == b) && n.get() == 12, "assertc_ne!({a:?},{b:?}) [{tn}] with counting arguments: panicked={p}, evaluation trace {} (expected 12)", n.get());
+                    }
                 }
                 Ok(())
             } else {
